@@ -99,6 +99,10 @@ pub struct Field {
     /// otherwise the k-th declared variant has discriminant (k * (rot | 1) + rot) mod 2^W
     #[serde(default)]
     pub variant_rot: u32,
+    /// put a `///` doc comment (passed through to getter and setters) before or after the
+    /// bit attribute: 0 = none, 1 = before, 2 = after
+    #[serde(default)]
+    pub doc: u8,
 }
 
 impl Field {
@@ -510,7 +514,7 @@ fn gen_field(rng: &mut Rng, n: u32, idx: usize, arb_only: bool) -> Option<Field>
         } else {
             place_parts(rng, &[w], n, bias_top, bias_bottom)
         };
-        return Some(Field { name, kind, ranges, array: None, access, qualified, type_width: None, attr_order: 0, variant_rot: 0 });
+        return Some(Field { name, kind, ranges, array: None, access, qualified, type_width: None, attr_order: 0, variant_rot: 0, doc: 0 });
     }
 
     if !multi {
@@ -544,6 +548,7 @@ fn gen_field(rng: &mut Rng, n: u32, idx: usize, arb_only: bool) -> Option<Field>
             type_width: None,
             attr_order: 0,
             variant_rot: 0,
+            doc: 0,
         });
     }
 
@@ -581,6 +586,7 @@ fn gen_field(rng: &mut Rng, n: u32, idx: usize, arb_only: bool) -> Option<Field>
                 type_width: None,
                 attr_order: 0,
                 variant_rot: 0,
+                doc: 0,
             };
             if allow_overlap || !f.self_overlap() {
                 return Some(f);
@@ -636,11 +642,15 @@ pub fn gen_layout(rng: &mut Rng, id: u32, o: GenOpts) -> Layout {
             type_width: None,
             attr_order: 0,
             variant_rot: 0,
+            doc: 0,
         });
     }
     for f in fields.iter_mut() {
         if rng.chance(30, 100) {
             f.attr_order = rng.below(6) as u8;
+        }
+        if rng.chance(12, 100) {
+            f.doc = rng.range(1, 2) as u8;
         }
         if f.kind == Kind::EnumExh && rng.chance(60, 100) {
             f.variant_rot = rng.range(1, 255) as u32;
@@ -684,7 +694,7 @@ fn probe(id: u32, n: u32, name: &str, fields: Vec<Field>, default: bool) -> Layo
 }
 
 fn fld(name: &str, kind: Kind, ranges: Vec<(u32, u32)>, array: Option<Arr>) -> Field {
-    Field { name: name.into(), kind, ranges, array, access: Access::RW, qualified: false, type_width: None, attr_order: 0, variant_rot: 0 }
+    Field { name: name.into(), kind, ranges, array, access: Access::RW, qualified: false, type_width: None, attr_order: 0, variant_rot: 0, doc: 0 }
 }
 
 fn kind_for_width(w: u32, rng: &mut Rng) -> Kind {
@@ -942,6 +952,7 @@ pub fn gen_mismatch_probes(rng: &mut Rng, n: u32, first_id: u32, at_top: bool) -
             type_width: Some(tw),
             attr_order: 0,
             variant_rot: 0,
+            doc: 0,
         }];
         if hi + 1 < n {
             let top = (hi + (tw - w)).min(n - 1);
@@ -1117,6 +1128,7 @@ mod variant_order_tests {
                     type_width: None,
                     attr_order: 0,
                     variant_rot: rot,
+                    doc: 0,
                 };
                 let mut v = f.exhaustive_variants();
                 assert_eq!(v.len(), 1 << w);
